@@ -154,10 +154,41 @@ def run_case(seed, idx, rec):
                     'verdict': verdict0, 'operations': ops})
 
 
+def digest_of_case(seed, idx):
+    '''Digest of the freshly generated and evaluated result of case `idx`
+    (None for the kinds whose content holds process-dependent text).'''
+    rng = core.rng_for(seed, PROP, idx)
+    gen = resgen.gen_result(rng, kind='external' if rng.random() < 0.08
+                            else None, exotic=True)
+    if gen['kind'] == 'external':
+        return None, gen['kind']
+    return snapshot.digest(gen['result']), gen['kind']
+
+
 def run(spec, rec):
+    # the first cases of the shard are evaluated once more at its end, from
+    # new objects: the results must be what they were in the young process
+    first = list(range(spec['lo'], min(spec['hi'], spec['lo'] + 25)))
+    early = {idx: digest_of_case(spec['seed'], idx) for idx in first}
     for idx in range(spec['lo'], spec['hi']):
         run_case(spec['seed'], idx, rec)
+    for idx in first:
+        late = digest_of_case(spec['seed'], idx)
+        if early[idx][0] is None:
+            continue
+        rec.count('evaluations_repeated_at_the_end_of_the_process')
+        if late != early[idx]:
+            rec.violation(f'evaluation-depends-on-process-history-'
+                          f'{early[idx][1]}', f'case {idx} ({early[idx][1]}) '
+                          'evaluated from fresh objects at the end of the '
+                          'shard differs from the same case evaluated at its '
+                          'beginning', {'seed': spec['seed'], 'idx': idx,
+                                        'history': [spec['lo'], spec['hi']]})
 
 
 def replay(case, rec):
+    if case.get('history'):
+        run({'seed': case['seed'], 'lo': case['history'][0],
+             'hi': case['history'][1]}, rec)
+        return
     run_case(case['seed'], case['idx'], rec)
